@@ -288,7 +288,7 @@ fn render_n(entries: &[NE], ns: &Ns) -> Rendered {
         text.push('\n');
         line += 1;
     }
-    Rendered { text, entry_line, posting_off, posting_span: Vec::new() }
+    Rendered { text, entry_line, entry_last_line: Vec::new(), posting_off, posting_span: Vec::new() }
 }
 
 fn ne_term(e: &NE) -> String {
